@@ -81,7 +81,7 @@ class CodecStreams:
         rows = []
         ml = []
         for (i, v), line, o in zip(cases, hl, hout):
-            f = sx.fields(o) if not o.startswith(('HARNESS', 'CRASH')) else None
+            f = sx.fields(o) if not o.startswith(('HARNESS', 'CRASH', 'OOM', 'EXCEPTION')) else None
             rows.append({'tid': i, 'input': v, 'case': line, 'h': f, 'hraw': o})
             ml.append('enc T%d %s' % (i, f['dump']) if f and 'dump' in f and '!' not in f['dump'] else '# skipped')
         mout = run_driver(pool, ml)
@@ -102,7 +102,7 @@ class CodecStreams:
         rows = []
         for it, line, a, b in zip(items, lines, hout, mout):
             rows.append({'tid': it[0], 'hex': it[1], 'handles': it[2], 'tag': it[3], 'prior': it[4], 'case': line,
-                         'h': sx.fields(a) if not a.startswith(('HARNESS', 'CRASH')) else None, 'hraw': a,
+                         'h': sx.fields(a) if not a.startswith(('HARNESS', 'CRASH', 'OOM', 'EXCEPTION')) else None, 'hraw': a,
                          'm': sx.fields(b) if not b.startswith(('DRIVER', 'CRASH')) else None, 'mraw': b})
         return rows
 
